@@ -6,6 +6,7 @@ use libfuzzer_sys::fuzz_target;
 use std::sync::Once;
 
 static INIT: Once = Once::new();
+static ONLY: std::sync::OnceLock<Option<String>> = std::sync::OnceLock::new();
 
 fuzz_target!(|data: &[u8]| {
     INIT.call_once(|| {
@@ -20,7 +21,7 @@ fuzz_target!(|data: &[u8]| {
     });
     let case = gv::fuzzdec::decode(data);
     let mut st = gv::runner::Stats::default();
-    if let Err((prop, _sub, m)) = gv::checks::fuzz_oracle("fuzz_lang", &case, &mut st) {
+    if let Err((prop, _sub, m)) = gv::checks::fuzz_oracle("fuzz_lang", &case, &mut st, ONLY.get_or_init(|| std::env::var("GV_FUZZ_PROPS").ok()).as_deref()) {
         if !m.starts_with("INFRA") {
             panic!("GV-VIOLATION property={} {}", prop, m);
         }
